@@ -18,7 +18,7 @@ from mc.acc import Acc
 from mc import par, states
 from ref import adu, pdu
 from harness import repo  # noqa: F401
-from harness import bind
+from harness import bind, framers
 
 from pymodbus.client.asynchronous.twisted import ModbusClientProtocol, ModbusSerClientProtocol, ModbusTcpClientProtocol
 from pymodbus.exceptions import ConnectionException
@@ -188,9 +188,9 @@ class World(object):
     def canon(self):
         tm = self.p.transaction
         pend = tuple(sorted(tm.transactions)) if isinstance(tm.transactions, dict) else len(tm.transactions)
-        return (self.connected, self.closed_locally, self.partial is not None, self.partial_used, self.p._connected, tm.tid, pend,
+        return (self.connected, self.closed_locally, self.partial is not None, self.partial_used, getattr(self.p, '_connected', None), tm.tid, pend,
                 tuple((r['wire_tid'], tuple(r['events']), r['after_loss'], i in self.delivered, r.get('retry', False), r.get('kept', False), r.get('again', False), r.get('cancelled', False)) for i, r in enumerate(self.reqs)),
-                bytes(self.p.framer._buffer), len(self.escaped))
+                framers.buffered(self.p.framer), framers.snapshot(self.p.framer), len(self.escaped))
 
 
 def menu(w, max_out, max_req):
